@@ -53,6 +53,74 @@ def run_stream(flavour, chunks, drain_each):
     return state, sent, exc
 
 
+class _Sock:
+    """Scripted fake socket for the real TCPTransport.run loop: recv(n) hands out the chunks, at most n bytes each."""
+
+    def __init__(self, chunks):
+        self.chunks = [c for c in chunks if c]
+        self.sent = []
+
+    def setblocking(self, flag):
+        pass
+
+    def recv(self, size):
+        chunk = self.chunks[0]
+        if len(chunk) > size:
+            self.chunks[0] = chunk[size:]
+            return chunk[:size]
+        self.chunks.pop(0)
+        return chunk
+
+    def sendall(self, data):
+        self.sent.append(bytes(data))
+
+    def close(self):
+        pass
+
+
+def run_stream_tcp(chunks, drain_each):
+    """The threaded TCP reader: the real TCPTransport.run loop pulls the chunks from a fake socket with
+    recv(120) and hands them to the protocol; the pump drains after every read or only at the end."""
+    import types
+
+    import mysensors.gateway_tcp as gt
+
+    world = World({"version": VERSION, "flavour": "sync", "cb": None})
+    sent = []
+    exc = None
+    saved = (gt.select, gt.time)
+    try:
+        sock = _Sock(chunks)
+        proto = world.gw.tasks.transport.protocol
+        holder = {}
+
+        def check_conn():
+            if drain_each:
+                obs = world.apply(("drain",))
+                sent.extend(obs.lines())
+            if not sock.chunks:
+                holder["t"].alive = False
+
+        gt.select = types.SimpleNamespace(select=lambda r, w, x, timeout=None: ([sock] if sock.chunks else [], [sock], []))
+        gt.time = types.SimpleNamespace(sleep=lambda s: None, time=lambda: 0.0)
+        transport = gt.TCPTransport(sock, lambda: proto, check_conn)
+        holder["t"] = transport
+        try:
+            transport.run()
+        except Exception as err:  # pylint: disable=broad-except
+            from ..world import exc_info
+
+            exc = exc_info(err)
+        obs = world.apply(("drain",))
+        sent.extend(obs.lines())
+        exc = exc or obs.exc
+        state = (world.tree(transient=True), bytes(proto.buffer))
+    finally:
+        gt.select, gt.time = saved
+        world.close()
+    return state, sent, exc
+
+
 def reference(stream):
     """Whole-line reference: independent splitter, each line handed to logic() of a fresh gateway,
     replies then follow-up jobs collected per line. Also predicts the 'nested jobs deferred' order."""
@@ -104,6 +172,12 @@ def lines_per_chunk(chunks):
 def segmentations(stream, tier, two_cuts):
     n = len(stream)
     yield "whole", [stream]
+    if tier == "burst":
+        # a long burst: only coarse segmentations (whole, halves, 120-byte reads, per line)
+        yield "halves", [stream[: n // 2], stream[n // 2 :]]
+        yield "120", [stream[i : i + 120] for i in range(0, n, 120)]
+        yield "per-line", [line + b"\n" for line in stream.split(b"\n") if line]
+        return
     for i in range(1, n):
         yield f"cut{i}", [stream[:i], stream[i:]]
     if two_cuts:
@@ -122,9 +196,12 @@ def check_streams(chunk):
         ref_state, ref_order, per_line, lines = reference(stream)
         stats["streams"] += 1
         for seg_name, chunks in segmentations(stream, tier, two_cuts):
-            for flavour, drain_each in (("async", True), ("sync", True), ("sync", False)):
+            for flavour, drain_each in (("async", True), ("sync", True), ("sync", False), ("tcp", True), ("tcp", False)):
                 stats["runs"] += 1
-                state, sent, exc = run_stream(flavour, chunks, drain_each)
+                if flavour == "tcp":
+                    state, sent, exc = run_stream_tcp(chunks, drain_each)
+                else:
+                    state, sent, exc = run_stream(flavour, chunks, drain_each)
                 sched = "inline" if flavour == "async" else ("drain-each-chunk" if drain_each else "drain-at-end")
                 rep = {"kind": "stream", "check": PROP, "names": list(names), "tail": tail, "chunks": chunks, "flavour": flavour, "drain_each": drain_each}
                 where = f"{flavour}|{sched}"
@@ -139,8 +216,9 @@ def check_streams(chunk):
                 if sent != ref_order:
                     if sorted(sent) == sorted(ref_order):
                         stats["order_differs"] += 1
-                        batches = lines_per_chunk(chunks) if drain_each else [len(lines)]
-                        if flavour == "sync" and sent == deferred_order(per_line, batches):
+                        reads = [c[i : i + 120] for c in chunks for i in range(0, len(c), 120)] if flavour == "tcp" else chunks
+                        batches = lines_per_chunk(reads) if drain_each else [len(lines)]
+                        if flavour in ("sync", "tcp") and sent == deferred_order(per_line, batches):
                             viols.append(Violation(PROP, "emission-order|threaded|follow-up-jobs-run-after-queued-lines", f"stream {names} as {seg_name} ({sched}): emitted {sent}, whole-line reference {ref_order}", rep))
                         else:
                             viols.append(Violation(PROP, f"emission-order|{where}|unexplained", f"stream {names} as {seg_name} ({sched}): emitted {sent}, reference {ref_order}", rep))
@@ -174,6 +252,8 @@ def run(tier):
         cases.append((t, b"", tier, False))
     long_stream = tuple(["PA", "CA0"] + ["SAe", "CFG", "SU", "CRLF"] * 6)
     cases.append((long_stream, b"1;2", tier, False))
+    # many lines pending at once (one chunk carries them all)
+    cases.append((tuple(["PA", "CA0"] + ["SAe", "TIMU", "CFG"] * 20), b"", "burst", False))
     viols, stats, samples = e5.pmap(check_streams, cases, parts=128)
     report.add_all(viols)
     cov = report.coverage
@@ -206,7 +286,10 @@ def replay(data):
     names, tail = tuple(rep["names"]), rep["tail"]
     stream = b"".join(FRAMES[n] for n in names) + tail
     ref_state, ref_order, per_line, lines = reference(stream)
-    state, sent, exc = run_stream(rep["flavour"], list(rep["chunks"]), rep["drain_each"])
+    if rep["flavour"] == "tcp":
+        state, sent, exc = run_stream_tcp(list(rep["chunks"]), rep["drain_each"])
+    else:
+        state, sent, exc = run_stream(rep["flavour"], list(rep["chunks"]), rep["drain_each"])
     cleanup_process_scratch()
     print(f"reference emissions {ref_order}\nobserved  emissions {sent}\nstate equal: {state == ref_state}; exception: {exc}")
     differs = exc is not None or state != ref_state or sent != ref_order
